@@ -548,8 +548,8 @@ zix_path_lexically_relative(ZixAllocator* const allocator,
     // Copy suffix from path (from `a` to the end)
     const size_t suffix_len = path_len - a.range.begin;
     offset = zix_path_append(rel, offset, path + a.range.begin, suffix_len);
-  } else if (n_up && path_len > 1 && is_dir_sep(path_last)) {
-    // Copy trailing directory separator from path
+  } else if (n_up && a.state != ZIX_PATH_END) {
+    // Copy trailing directory separator from path (its empty last element)
     rel[offset++] = path_last;
   }
 
